@@ -23,6 +23,7 @@ import (
 	"fmt"
 	"go/token"
 	"go/types"
+	"strings"
 )
 
 type wkbItem struct {
@@ -481,6 +482,8 @@ func c05model(c *Ctx, ruleW, ruleR, ruleT string) {
 					} else {
 						v.unk = fmt.Sprintf("Write(%s): not interpretable: %s", g.tn, why)
 					}
+				case len(w.problems) > 0 && strings.Contains(w.problems[0], "⊤"):
+					v.unk = fmt.Sprintf("Write(%s): %s", g.tn, w.problems[0])
 				case len(w.problems) > 0:
 					v.msg = fmt.Sprintf("Write(%s): %s", g.tn, w.problems[0])
 				default:
@@ -528,6 +531,8 @@ func c05model(c *Ctx, ruleW, ruleR, ruleT string) {
 					} else {
 						r.unk = what + ": not interpretable: " + why
 					}
+				case len(w.problems) > 0 && strings.Contains(w.problems[0], "⊤"):
+					r.unk = what + ": " + w.problems[0]
 				case len(w.problems) > 0:
 					r.msg = what + ": " + w.problems[0]
 				default:
@@ -567,6 +572,8 @@ func c05model(c *Ctx, ruleW, ruleR, ruleT string) {
 				} else {
 					r.unk = fmt.Sprintf("Read of a line string of %d points: not interpretable: %s", n, why)
 				}
+			case len(w.problems) > 0 && strings.Contains(w.problems[0], "⊤"):
+				r.unk = fmt.Sprintf("Read of a line string of %d points: %s", n, w.problems[0])
 			case len(w.problems) > 0:
 				r.msg = fmt.Sprintf("Read of a line string of %d points: %s", n, w.problems[0])
 			default:
